@@ -111,7 +111,10 @@ def getcallarg(function, args, kwargs):
     if len(args):
         arg = args[0]
     else:
-        arg = kwargs[getargs(function)[0]]
+        names = getargs(function)
+        if len(names) == 0:
+            return None
+        arg = kwargs[names[0]] if names[0] in kwargs else argspec_defaults(function).get(names[0]) ## the first arg may be left to its default
     return arg
 
 
